@@ -302,6 +302,37 @@ pub fn auto1(table: u8, b: u8) -> (Allowed, u8) {
     (a, PLAIN)
 }
 
+/// What a table look-up in context (table, release flag) must yield for `byte` (used when the prefix automaton is
+/// supplied from outside, e.g. by the TLA+ model): Set 2: the byte is the code; Set 1: low 7 bits, bit 7 = release.
+pub fn lookup_allowed(set: u8, table: u8, brk: bool, byte: u8) -> Allowed {
+    if set == 2 {
+        match ref_lookup(2, table, byte) {
+            Some(k) if k == K::TooManyKeys || k == K::PowerOnTestOk => {
+                if brk {
+                    Allowed::Loose(k)
+                } else {
+                    Allowed::Event(k, KeyState::SingleShot)
+                }
+            }
+            Some(k) => Allowed::Event(k, if brk { KeyState::Up } else { KeyState::Down }),
+            None => match extra_lookup(2, table, byte) {
+                Some(n) => Allowed::EventNamed(n, if brk { KeyState::Up } else { KeyState::Down }),
+                None => Allowed::Unknown,
+            },
+        }
+    } else {
+        let code = byte & 0x7F;
+        let st = if byte & 0x80 != 0 { KeyState::Up } else { KeyState::Down };
+        match ref_lookup(1, table, code) {
+            Some(k) => Allowed::Event(k, st),
+            None => match extra_lookup(1, table, code) {
+                Some(n) => Allowed::EventNamed(n, st),
+                None => Allowed::Unknown,
+            },
+        }
+    }
+}
+
 // ---- R-8042 ----------------------------------------------------------------------------------
 
 /// The i8042 Set 2 -> Set 1 translation table for bytes 0x00..0x7F (Brouwer §10 / IBM PS/2 TR).
